@@ -132,6 +132,13 @@ class RLock(object):
         self.owner, self.count = st
 
 
+class _Tok(object):
+    __slots__ = ("set",)
+
+    def __init__(self):
+        self.set = False
+
+
 class Condition(object):
     def __init__(self, lock=None):
         self._lock = lock if lock is not None else RLock("cond")
@@ -149,21 +156,23 @@ class Condition(object):
         s = _sim()
         if s is None:
             return False
-        tok = [False]
+        tok = _Tok()
         self._waiters.append(tok)
         st = self._lock._release_save()
         s.point("cond.wait-released")
         try:
-            ok = s.block(lambda: tok[0], timeout, "cond.wait")
+            ok = s.block(lambda: tok.set, timeout, "cond.wait")
         finally:
-            if tok in self._waiters:
-                self._waiters.remove(tok)
+            for i, t in enumerate(self._waiters):
+                if t is tok:
+                    del self._waiters[i]
+                    break
             self._lock._acquire_restore(st)
         return ok
 
     def notify(self, n=1):
         for tok in self._waiters[:n]:
-            tok[0] = True
+            tok.set = True
         del self._waiters[:n]
         s = _sim()
         if s is not None:
